@@ -146,7 +146,12 @@ pub fn tree_specs(max_nodes: usize, two_roots_upto: usize) -> Vec<TreeSpec> {
         for text in forests(n) {
             out.push(TreeSpec { text: text.clone(), roots: 1 });
             if n >= 1 && n <= two_roots_upto {
-                out.push(TreeSpec { text, roots: 2 });
+                out.push(TreeSpec { text: text.clone(), roots: 2 });
+            }
+            // more roots than (two) workers: the initial messages are dealt
+            // out to the workers' deques
+            if n <= 1 {
+                out.push(TreeSpec { text, roots: 3 });
             }
         }
     }
@@ -819,7 +824,7 @@ pub fn plan(tier: Tier) -> Plan {
         }
         let entries = visit_count(spec) / spec.roots - 1;
         for &(w, rb, maxn, max2, d) in model_cfg.iter() {
-            if entries > maxn || (spec.roots == 2 && entries > max2) {
+            if entries > maxn || (spec.roots >= 2 && entries > max2) || (spec.roots == 3 && w > 3) {
                 continue;
             }
             let mut quits: Vec<Option<usize>> = vec![None];
@@ -832,7 +837,7 @@ pub fn plan(tier: Tier) -> Plan {
         }
     }
     let description = format!(
-        "trees: all forests of files/directories with <= {} entries below the root (canonical up to sibling order; {} of them also with two roots) = {} trees; per tree: {} (workers, preemption bound, Steal::Retry bound) without quit, and a visitor Quit injected at every visit index with (workers, preemption bound) {}",
+        "trees: all forests of files/directories with <= {} entries below the root (canonical up to sibling order; {} of them also with two roots; the trees with at most one entry also with three roots) = {} trees; per tree: {} (workers, preemption bound, Steal::Retry bound) without quit, and a visitor Quit injected at every visit index with (workers, preemption bound) {}",
         max_nodes,
         specs.iter().filter(|s| s.roots == 2).count(),
         specs.len(),
